@@ -820,4 +820,243 @@ Section Univ.
     - destruct (alloc_get a k) as [p'|] eqn:E; simpl in H3; [|contradiction]. exists p'. split; [reflexivity|].
       symmetry. apply pile_sum_plook; [exact (alloc_get_wf a k p' H1 E)|exact (alloc_get_wf a' k p H2 Hg)|exact H3].
   Qed.
+
+  (* ------------------------------------------------------------ get_n_best on permuted dictionaries, any n *)
+  Definition is_tie {K} (r : res K) : bool := match r with TieR _ => true | _ => false end.
+  Definition cands_of {K} (l : list (res K)) : list K := flat_map (fun r => match r with Cand c => [c] | _ => [] end) l.
+
+  Lemma gnb_zero {K} (l : list (K * Q)) : get_n_best Qle_bool l 0 = [].
+  Proof.
+    unfold get_n_best. destruct (sort_desc Qle_bool l) as [|[c thr] s]; [reflexivity|].
+    cbn [length Nat.ltb Nat.leb Nat.sub nth_error]. destruct (eqv Qle_bool thr thr) eqn:E; [|reflexivity].
+    cbn [first_eq_index snd]. rewrite E. reflexivity.
+  Qed.
+
+  Lemma gnb_perm_kept {K} (votes votes' : list (K * Q)) n : NoDup (map fst votes) -> Permutation votes votes' ->
+    existsb is_tie (get_n_best Qle_bool votes n) = existsb is_tie (get_n_best Qle_bool votes' n) /\
+    (existsb is_tie (get_n_best Qle_bool votes n) = false ->
+     Permutation (cands_of (get_n_best Qle_bool votes n)) (cands_of (get_n_best Qle_bool votes' n)) /\
+     NoDup (cands_of (get_n_best Qle_bool votes n))).
+  Proof.
+    intros Hn Hp. destruct n as [|n]; [rewrite !gnb_zero; simpl; split; [reflexivity|intros _; split; constructor]|].
+    destruct (gnb_perm_shape votes votes' (S n) ltac:(lia) Hn Hp) as (cs & cs' & T & T' & k & E & E' & Pcs & Ncs & _).
+    rewrite E, E'. rewrite !existsb_app.
+    assert (H1 : forall l : list K, existsb is_tie (map Cand l) = false) by (induction l; simpl; auto).
+    assert (H2 : forall (X : list K) j, existsb is_tie (repeat (TieR X) j) = match j with O => false | _ => true end) by (intros X [|j]; reflexivity).
+    assert (H3 : forall l : list K, cands_of (map Cand l) = l) by (induction l as [|x l IH]; simpl; [reflexivity|f_equal; exact IH]).
+    assert (H4 : forall (X : list K) j, cands_of (repeat (TieR X) j) = []) by (intros X j; induction j; simpl; auto).
+    rewrite !H1, !H2. split; [reflexivity|]. intros _. unfold cands_of in *. rewrite !flat_map_app, !H3, !H4, !app_nil_r. split; assumption.
+  Qed.
+
+  (* ------------------------------------------------------------ _elect_by_quota *)
+  Definition ebq_sel (cf : cfg) (q : Q) (prev caps : list (C * Z)) (kt : option C * Q) : list (C * Z * Q) :=
+    match fst kt with
+    | None => []
+    | Some c =>
+        let mult := qfloor_div (snd kt) q in
+        let over := Qred (snd kt - inject_Z mult * q) in
+        if c_accept_equal cf || negb (Qeq_bool over 0) then
+          let capped := match dget caps c with Some m => Z.min mult m | None => mult end in
+          let actual := (capped - dget_or prev c 0)%Z in
+          if (0 <? actual)%Z then [(c, actual, over)] else []
+        else []
+    end.
+
+  Definition ebq_body (n_rem : Z) (sel : list (C * Z * Q)) : option (list (C * Z)) + stop :=
+    let awarded := map (fun x : C * Z * Q => (fst (fst x), snd (fst x))) sel in
+    if (n_rem <? zsum (map snd awarded))%Z then
+      let kept := get_n_best Qle_bool (map (fun x : C * Z * Q => (fst (fst x), snd x)) sel) (Z.to_nat n_rem) in
+      if existsb (fun r => match r with TieR _ => true | _ => false end) kept then inr S_nie
+      else
+        let keptc := flat_map (fun r => match r with Cand c => [c] | _ => [] end) kept in
+        inl (Some (flat_map (fun cs : C * Z =>
+                     if cmem (fst cs) keptc then [cs]
+                     else if (1 <? snd cs)%Z then [(fst cs, (snd cs - 1)%Z)] else []) awarded))
+    else inl (Some awarded).
+
+  Lemma ebq_unfold cf tot q n_rem prev caps :
+    elect_by_quota cf tot (Some q) n_rem prev caps =
+      match flat_map (ebq_sel cf q prev caps) (sort_desc Qle_bool (map (fun kt : option C * Q => (fst kt, snd kt)) tot)) with
+      | [] => inl None
+      | sel => ebq_body n_rem sel
+      end.
+  Proof.
+    unfold elect_by_quota. cbv zeta.
+    match goal with |- match ?X with _ => _ end = _ => set (s1 := X) end.
+    change (flat_map (ebq_sel cf q prev caps) (sort_desc Qle_bool (map (fun kt : option C * Q => (fst kt, snd kt)) tot))) with s1.
+    destruct s1; reflexivity.
+  Qed.
+
+  Definition ebq_rel (r r' : option (list (C * Z)) + stop) : Prop :=
+    match r, r' with
+    | inl None, inl None => True
+    | inl (Some el), inl (Some el') => NoDup (map fst el) /\ Permutation el el'
+    | inr s, inr s' => s = s'
+    | _, _ => False
+    end.
+
+  Lemma zsum_perm l l' : Permutation l l' -> zsum l = zsum l'.
+  Proof. intros H. unfold zsum. rewrite !fold_add_acc. f_equal. apply lsumZ_perm, H. Qed.
+
+  Lemma flat_map_keys_nodup {A B} (f : A -> list (C * B)) (key : A -> C) (l : list A) :
+    (forall x y, In y (f x) -> fst y = key x) -> (forall x, (length (f x) <= 1)%nat) -> NoDup (map key l) -> NoDup (map fst (flat_map f l)).
+  Proof.
+    intros Hk Hl. induction l as [|x l IH]; simpl; intros Hn; [constructor|].
+    inversion Hn as [|? ? Hx Hn']; subst. rewrite map_app.
+    assert (Hsub : forall c, In c (map fst (flat_map f l)) -> In c (map key l)).
+    { intros c Hc. apply in_map_iff in Hc. destruct Hc as (y & <- & Hy). apply in_flat_map in Hy. destruct Hy as (x0 & Hx0 & Hy).
+      rewrite (Hk x0 y Hy). apply in_map, Hx0. }
+    specialize (Hl x). destruct (f x) as [|y [|z t]] eqn:E; simpl in *; [apply IH, Hn'| |lia].
+    constructor; [|apply IH, Hn']. intros Hc. apply Hx. rewrite <- (Hk x y); [apply Hsub, Hc|rewrite E; left; reflexivity].
+  Qed.
+
+  Lemma ebq_body_perm n_rem sel sel' : NoDup (map (fun x : C * Z * Q => fst (fst x)) sel) -> Permutation sel sel' ->
+    ebq_rel (ebq_body n_rem sel) (ebq_body n_rem sel').
+  Proof.
+    intros Hn Hp. unfold ebq_body.
+    set (aw := map (fun x : C * Z * Q => (fst (fst x), snd (fst x))) sel).
+    set (aw' := map (fun x : C * Z * Q => (fst (fst x), snd (fst x))) sel').
+    assert (Hap : Permutation aw aw') by (apply Permutation_map, Hp).
+    assert (Han : NoDup (map fst aw)) by (unfold aw; rewrite map_map; exact Hn).
+    rewrite <- (zsum_perm _ _ (Permutation_map snd Hap)).
+    destruct (n_rem <? zsum (map snd aw))%Z; [|simpl; split; assumption].
+    set (ov := map (fun x : C * Z * Q => (fst (fst x), snd x)) sel).
+    set (ov' := map (fun x : C * Z * Q => (fst (fst x), snd x)) sel').
+    assert (Hop : Permutation ov ov') by (apply Permutation_map, Hp).
+    assert (Hon : NoDup (map fst ov)) by (unfold ov; rewrite map_map; exact Hn).
+    destruct (gnb_perm_kept ov ov' (Z.to_nat n_rem) Hon Hop) as [Ht Hc].
+    fold (@is_tie C) in *. fold (@cands_of C (get_n_best Qle_bool ov (Z.to_nat n_rem))) (@cands_of C (get_n_best Qle_bool ov' (Z.to_nat n_rem))).
+    rewrite <- Ht. destruct (existsb is_tie (get_n_best Qle_bool ov (Z.to_nat n_rem))); [reflexivity|].
+    destruct (Hc eq_refl) as [Hkp _]. cbn [ebq_rel]. split.
+    - apply (flat_map_keys_nodup _ fst); [| |exact Han].
+      + intros x y. destruct (cmem (fst x) _); [intros [<-|[]]; reflexivity|]. destruct (1 <? snd x)%Z; [intros [<-|[]]; reflexivity|intros []].
+      + intros x. destruct (cmem (fst x) _); [simpl; lia|]. destruct (1 <? snd x)%Z; simpl; lia.
+    - eapply Permutation_trans; [apply Permutation_flat_map, Hap|]. apply Permutation_refl'.
+      apply flat_map_ext. intros cs. rewrite (cmem_perm _ _ _ Hkp). reflexivity.
+  Qed.
+
+  Lemma ebq_sel_ext cf q prev prev' caps kt : (forall c, dget_or prev' c 0%Z = dget_or prev c 0%Z) ->
+    ebq_sel cf q prev' caps kt = ebq_sel cf q prev caps kt.
+  Proof. intros H. unfold ebq_sel. destruct (fst kt); [|reflexivity]. rewrite H. reflexivity. Qed.
+
+  Lemma items_perm (tot : list (option C * Q)) : Permutation (sort_desc Qle_bool (map (fun kt : option C * Q => (fst kt, snd kt)) tot)) tot.
+  Proof.
+    rewrite map_ext with (g := fun x => x) by (intros [x y]; reflexivity). rewrite map_id. apply sort_desc_perm.
+  Qed.
+
+  Theorem elect_by_quota_perm cf tot tot' quota n_rem prev prev' caps :
+    NoDup (map fst tot) -> Permutation tot tot' -> keysnd prev -> Permutation prev prev' ->
+    ebq_rel (elect_by_quota cf tot quota n_rem prev caps) (elect_by_quota cf tot' quota n_rem prev' caps).
+  Proof.
+    intros Hn Hp Hpn Hpp. destruct quota as [q|]; [|exact I]. rewrite !ebq_unfold.
+    set (items := sort_desc Qle_bool (map (fun kt : option C * Q => (fst kt, snd kt)) tot)).
+    set (items' := sort_desc Qle_bool (map (fun kt : option C * Q => (fst kt, snd kt)) tot')).
+    assert (Hip : Permutation items items').
+    { eapply Permutation_trans; [apply items_perm|]. eapply Permutation_trans; [exact Hp|apply Permutation_sym, items_perm]. }
+    assert (Hin : NoDup (map fst items)).
+    { eapply Permutation_NoDup; [apply Permutation_map, Permutation_sym, items_perm|exact Hn]. }
+    rewrite (flat_map_ext (ebq_sel cf q prev' caps) (ebq_sel cf q prev caps)) by (intros kt; apply ebq_sel_ext; intros c; symmetry; apply dget_or_perm; assumption).
+    assert (Hsp : Permutation (flat_map (ebq_sel cf q prev caps) items) (flat_map (ebq_sel cf q prev caps) items')) by (apply Permutation_flat_map, Hip).
+    assert (Hsn : NoDup (map (fun x : C * Z * Q => fst (fst x)) (flat_map (ebq_sel cf q prev caps) items))).
+    { clear -Hin. induction items as [|[k t] l IH]; simpl; [constructor|]. simpl in Hin. inversion Hin as [|? ? Hk Hn]; subst.
+      rewrite map_app. unfold ebq_sel at 1. cbn [fst snd].
+      destruct k as [c|]; [|apply IH, Hn].
+      destruct (c_accept_equal cf || _); [|apply IH, Hn]. destruct (0 <? _)%Z; [|apply IH, Hn].
+      simpl. constructor; [|apply IH, Hn]. intros Hc. apply Hk. apply in_map_iff in Hc. destruct Hc as (y & Hy & Hc).
+      apply in_flat_map in Hc. destruct Hc as ([k0 t0] & Hk0 & Hc). unfold ebq_sel in Hc. cbn [fst snd] in Hc.
+      destruct k0 as [c0|]; [|destruct Hc]. apply in_map_iff. exists (Some c0, t0). split; [|exact Hk0].
+      destruct (c_accept_equal cf || _); [|destruct Hc]. destruct (0 <? _)%Z; [|destruct Hc]. destruct Hc as [<-|[]]. simpl in Hy. simpl. congruence. }
+    destruct (flat_map (ebq_sel cf q prev caps) items) as [|x l] eqn:E1.
+    - apply Permutation_nil in Hsp. rewrite Hsp. exact I.
+    - destruct (flat_map (ebq_sel cf q prev caps) items') as [|y l'] eqn:E2.
+      + apply Permutation_sym, Permutation_nil in Hsp. discriminate.
+      + apply ebq_body_perm; assumption.
+  Qed.
+
+  (* ------------------------------------------------------------ one count *)
+  Definition cr_rel (r r' : count_result) : Prop :=
+    match r, r' with
+    | CR_all el, CR_all el' => keysnd el /\ Permutation el el'
+    | CR_next a el, CR_next a' el' => aeq a a' /\ keysnd el /\ Permutation el el'
+    | CR_stop s, CR_stop s' => s = s'
+    | _, _ => False
+    end.
+
+  Lemma transfer_or_not a a' elim elim' : aeq a a' -> Permutation elim elim' ->
+    aeq (match elim with [] => a | _ => transfer a elim end) (match elim' with [] => a' | _ => transfer a' elim' end).
+  Proof.
+    intros Ha Hp. destruct elim as [|x l].
+    - apply Permutation_nil in Hp. subst. exact Ha.
+    - destruct elim' as [|y l']; [apply Permutation_sym, Permutation_nil in Hp; discriminate|].
+      apply transfer_resp; [exact Ha|]. intros c. apply cmem_perm, Hp.
+  Qed.
+
+  Lemma some_totals_nodup (t : list (option C * Q)) : NoDup (map fst t) -> NoDup (map fst (some_totals t)).
+  Proof.
+    unfold some_totals. induction t as [|[[c|] x] t IH]; simpl; intros H; [constructor| |]; inversion H as [|? ? Hk Hn]; subst; [|apply IH, Hn].
+    constructor; [|apply IH, Hn]. intros Hi. apply Hk. apply in_map_iff in Hi. destruct Hi as ([c0 x0] & Hc & Hi). simpl in Hc. subst c0.
+    apply in_flat_map in Hi. destruct Hi as ([[k|] y] & Hy & Hi); simpl in Hi; [|destruct Hi]. destruct Hi as [Hi|[]]. injection Hi as -> ->.
+    apply in_map_iff. exists (Some c, x0). auto.
+  Qed.
+
+  Theorem next_count_perm cf a a' n_seats total prev prev' caps :
+    aeq a a' -> keysnd prev -> Permutation prev prev' ->
+    cr_rel (next_count cf a n_seats total prev caps) (next_count cf a' n_seats total prev' caps).
+  Proof.
+    intros Ha Hpn Hpp. unfold next_count.
+    pose proof (totals_perm a a' Ha) as Htp.
+    assert (Htn : NoDup (map fst (totals a))) by (rewrite totals_keys; apply Ha).
+    assert (Hpd : forall c, dget_or prev' c 0%Z = dget_or prev c 0%Z) by (intros c; symmetry; apply dget_or_perm; assumption).
+    rewrite <- (zsum_perm _ _ (Permutation_map snd Hpp)).
+    set (n_rem := (n_seats - zsum (map snd prev))%Z).
+    set (tot := totals a) in *. set (tot' := totals a') in *.
+    assert (Hbp : Permutation (sort_desc Qle_bool tot) (sort_desc Qle_bool tot')).
+    { eapply Permutation_trans; [apply sort_desc_perm|]. eapply Permutation_trans; [exact Htp|apply Permutation_sym, sort_desc_perm]. }
+    assert (Hbn : NoDup (map fst (sort_desc Qle_bool tot))).
+    { eapply Permutation_NoDup; [apply Permutation_map, Permutation_sym, sort_desc_perm|exact Htn]. }
+    rewrite <- (existsb_perm _ _ _ Hbp).
+    set (availf := fun pv (kt : option C * Q) => match fst kt with Some c => [(c, (dget_or caps c 0 - dget_or pv c 0)%Z)] | None => [] end).
+    change (flat_map (fun kt : option C * Q => match fst kt with Some c => [(c, (dget_or caps c 0 - dget_or prev c 0)%Z)] | None => [] end) (sort_desc Qle_bool tot))
+      with (flat_map (availf prev) (sort_desc Qle_bool tot)).
+    change (flat_map (fun kt : option C * Q => match fst kt with Some c => [(c, (dget_or caps c 0 - dget_or prev' c 0)%Z)] | None => [] end) (sort_desc Qle_bool tot'))
+      with (flat_map (availf prev') (sort_desc Qle_bool tot')).
+    rewrite (flat_map_ext (availf prev') (availf prev)) by (intros kt; unfold availf; destruct (fst kt); [rewrite Hpd|]; reflexivity).
+    assert (Hav : Permutation (flat_map (availf prev) (sort_desc Qle_bool tot)) (flat_map (availf prev) (sort_desc Qle_bool tot'))) by (apply Permutation_flat_map, Hbp).
+    assert (Han : keysnd (flat_map (availf prev) (sort_desc Qle_bool tot))).
+    { unfold keysnd. clear -Hbn. induction (sort_desc Qle_bool tot) as [|[[c|] x] t IH]; simpl in *; [constructor| |]; inversion Hbn as [|? ? Hk Hn]; subst; [|apply IH, Hn].
+      constructor; [|apply IH, Hn]. intros Hi. apply Hk. apply in_map_iff in Hi. destruct Hi as ([c0 x0] & Hc & Hi). simpl in Hc. subst c0.
+      apply in_flat_map in Hi. destruct Hi as ([[k|] y] & Hy & Hi); unfold availf in Hi; simpl in Hi; [|destruct Hi]. destruct Hi as [Hi|[]]. injection Hi as -> _.
+      apply in_map_iff. exists (Some c, y). auto. }
+    rewrite <- (zsum_perm _ _ (Permutation_map snd Hav)).
+    destruct (negb _ && (_ =? n_rem)%Z && negb (c_mandatory cf)); [split; assumption|].
+    set (quota := match c_quota cf with Some qf => if Qeq_bool total 0 || (n_seats =? 0)%Z then None else Some (qf total n_seats) | None => None end).
+    pose proof (elect_by_quota_perm cf tot tot' quota n_rem prev prev' caps Htn Htp Hpn Hpp) as Heb.
+    destruct (elect_by_quota cf tot quota n_rem prev caps) as [[el|]|st], (elect_by_quota cf tot' quota n_rem prev' caps) as [[el'|]|st']; simpl in Heb; try contradiction.
+    - destruct Heb as [Hen Hep]. destruct quota as [q|]; [|reflexivity].
+      assert (Hmp : Permutation (map (fun cs : C * Z => (fst cs, inject_Z (snd cs) * q)) el) (map (fun cs : C * Z => (fst cs, inject_Z (snd cs) * q)) el')) by (apply Permutation_map, Hep).
+      assert (Hmn : NoDup (map fst (map (fun cs : C * Z => (fst cs, inject_Z (snd cs) * q)) el))) by (rewrite map_map; exact Hen).
+      pose proof (subtract_resp a a' _ _ Ha Hmp Hmn) as Hs.
+      destruct (subtract a _) as [a1|], (subtract a' _) as [a1'|]; simpl in Hs; try contradiction; [|reflexivity].
+      cbn [cr_rel]. split; [|split; assumption].
+      apply transfer_or_not; [exact Hs|].
+      rewrite (flat_map_ext (fun cs : C * Z => match dget caps (fst cs) with Some m => if (m <=? snd cs + dget_or prev' (fst cs) 0)%Z then [fst cs] else [] | None => [] end)
+                            (fun cs : C * Z => match dget caps (fst cs) with Some m => if (m <=? snd cs + dget_or prev (fst cs) 0)%Z then [fst cs] else [] | None => [] end))
+        by (intros cs; rewrite Hpd; reflexivity).
+      apply Permutation_flat_map, Hep.
+    - (* nobody reaches the quota: eliminate *)
+      assert (Hip : Permutation (some_totals tot) (some_totals tot')) by (apply Permutation_flat_map, Htp).
+      assert (Hin : NoDup (map fst (some_totals tot))) by (apply some_totals_nodup, Htn).
+      rewrite <- (Permutation_length Hip).
+      destruct (gnb_perm_kept (some_totals tot) (some_totals tot') (retained_count cf (length (some_totals tot))) Hin Hip) as [Ht Hc].
+      fold (@is_tie C) in *.
+      fold (@cands_of C (get_n_best Qle_bool (some_totals tot) (retained_count cf (length (some_totals tot)))))
+           (@cands_of C (get_n_best Qle_bool (some_totals tot') (retained_count cf (length (some_totals tot))))).
+      rewrite <- Ht. destruct (existsb is_tie _); [reflexivity|]. destruct (Hc eq_refl) as [Hkp _].
+      cbn [cr_rel]. split; [|split; [constructor|constructor]].
+      apply transfer_or_not; [exact Ha|].
+      rewrite (filter_ext (fun c : C => negb (cmem c (cands_of (get_n_best Qle_bool (some_totals tot') (retained_count cf (length (some_totals tot)))))))
+                          (fun c : C => negb (cmem c (cands_of (get_n_best Qle_bool (some_totals tot) (retained_count cf (length (some_totals tot)))))))) by (intros c; rewrite (cmem_perm _ _ _ Hkp); reflexivity).
+      apply perm_filter, Permutation_map, Hip.
+    - exact Heb.
+  Qed.
 End Univ.
